@@ -594,20 +594,52 @@ class C15(Property):
     def jittered(op):
         return f(op['jitter']) != 0.0
 
+    @staticmethod
+    def silent(op):
+        """count=None with factor exactly 1: the statement says nothing about the default count there ("with the
+        default count (factor > 1) ..."), so what the code does (ValueError when start < stop, [stop] when
+        start == stop) is not compared with the model; the oracle still judges the shape of whatever is yielded"""
+        return op['count'] is None and f(op['factor']) == 1.0
+
+    @staticmethod
+    def produced(case, obs, calls):
+        """for every count=None call of a session that ran to its end: how many values it produced (as a string).
+        The statement fixes the LAST value of a default-count run (stop), not their number: the driver judges the
+        call as count=<that number> when it is at least the model's own minimal default count."""
+        tot, ended = {}, {}
+        for op, o in list(zip(case['ops'], obs['ops'])) + [({'op': 'pull', 'id': int(i)}, o) for i, o in obs['drain'].items()]:
+            i = op['id']
+            if i not in calls or calls[i]['count'] is not None:
+                continue
+            if op['op'] == 'call' and calls[i]['fn'] == 'L' and not o.get('exc'):
+                tot[i], ended[i] = len(o['vals']), True
+            elif op['op'] == 'pull' and 'vals' in o and not ended.get(i):
+                if o['exc']:
+                    ended[i] = 'exc'
+                else:
+                    tot[i] = tot.get(i, 0) + len(o['vals'])
+                    if o['end'] == 'end':
+                        ended[i] = True
+        return {i: str(n) for i, n in tot.items() if ended.get(i) is True}
+
     def session_line(self, case):
         plan = self.session_plan(case)
         if plan is None:
             return None
         calls, pos, drains = plan
-        obs = self._obs_for(case) if any(self.jittered(c) for c in calls.values()) else None
+        if any(self.silent(c) for c in calls.values()):
+            return None
+        dflt = any(c['count'] is None for c in calls.values())
+        obs = self._obs_for(case) if dflt or any(self.jittered(c) for c in calls.values()) else None
+        produced = self.produced(case, obs, calls) if dflt else {}
         out = []
         for n, op in enumerate(case['ops']):
-            jit = obs is not None and self.jittered(calls[op['id']])
+            jit = self.jittered(calls[op['id']])
             if op['op'] == 'call':
                 c = op['count']
                 if isinstance(c, int) and c > MODEL_MAX_COUNT:
                     return None
-                cs = 'N' if c is None else 'R' if c == 'repeat' else str(c)
+                cs = 'N' + produced.get(op['id'], '') if c is None else 'R' if c == 'repeat' else str(c)
                 toks = [op['fn'], op['start'], op['stop'], cs, op['factor'], op['jitter'], ','.join(op['draws']) or '-']
                 if jit:
                     toks.append(self.observed(obs['ops'][n]) if op['fn'] == 'L' else '-')
@@ -619,7 +651,7 @@ class C15(Property):
             else:
                 out.append('R %d' % pos[op['id']])
         for i in drains:
-            jit = obs is not None and self.jittered(calls[i])
+            jit = self.jittered(calls[i])
             out.append('P %d %d%s' % (pos[i], self.drain_limit(calls[i]),
                                       ' ' + self.observed(obs['drain'].get(str(i))) if jit else ''))
         return 'S|%s|%s' % (case['inst'], ';'.join(out))
@@ -633,7 +665,13 @@ class C15(Property):
         for k in ('start', 'stop', 'factor', 'jitter'):
             if not math.isfinite(f(case[k])):
                 return None
+        if self.silent(case):
+            return None
         cs = 'N' if c is None else 'R' if c == 'repeat' else str(c)
+        if c is None:
+            o = self._obs_for(case)
+            if not o['exc'] and o['end'] == 'stop':
+                cs = 'N%d' % len(o['vals'])      # the statement fixes the last value of a default run, not its length
         toks = [case['inst'], case['fn'], case['start'], case['stop'], cs, case['factor'], case['jitter'],
                 str(case['take']), ','.join(case['draws']) or '-']
         if self.jittered(case):
@@ -1040,7 +1078,9 @@ class C15(Property):
                                % (self.describe(case), obs['exc'], len(obs['vals'])))
             return None
         silent = count is None and Fa == U                # default count with factor 1: statement is silent
-        maybe_stuck = count is None and 0 < start < TINY  # rounding may absorb the factor on subnormals
+        # rounding may absorb the factor on subnormals: then no sequence of doubles grows by one multiplication per
+        # step from start to stop, and a ValueError before the first value is accepted
+        maybe_stuck = count is None and 0 < start < TINY and start < stop and self.gets_stuck(start, stop, factor)
         for name, o in runs:
             if silent:
                 continue                                  # only the shape of whatever was yielded is judged
@@ -1109,6 +1149,20 @@ class C15(Property):
                                    'un-jittered value %r and %r * (1 - %r)' % (i, fw[i], j, fv[i], fv[i], j))
         self._nt = bool(n and grew and v[-1] == T)
         return None
+
+    @staticmethod
+    def gets_stuck(start, stop, factor):
+        """does stepping x -> x * factor (one IEEE multiplication) from a subnormal start stop making progress
+        below stop?  Only possible among subnormals (a normal double times a factor > 1 is a larger double)."""
+        x = start
+        for _ in range(200000):
+            if x >= stop or x >= TINY:
+                return False
+            nx = x * factor
+            if nx == x:
+                return True
+            x = nx
+        return False
 
     def nontrivial(self, case, obs):
         return getattr(self, '_nt', False)
